@@ -401,6 +401,15 @@ L.append("def defaultSites : List (String × String) := [")
 L.append(",\n".join('  ("%s", "%s")' % (a, b.replace('"', "'")) for a, b in site_ids))
 L.append("]")
 L.append("")
+f149 = limb_array_after("let five_to_149 = BigUint::from_slice")
+f1074 = limb_array_after("let five_to_1074 = BigUint::from_slice")
+for nm, arr in (("five149Limbs", f149), ("five1074Limbs", f1074)):
+    if not arr:
+        missing.append(nm)
+        arr = []
+    L.append("/-- u32 limbs (little endian) of the subnormal scaling constant in src/parsing.rs -/")
+    L.append("def %s : List Nat := [%s]" % (nm, ", ".join(str(x) for x in arr)))
+L.append("")
 L.append("/-- operator `impl`s found in src/impl_ops*.rs -/")
 L.append("def opInventory : List String := [")
 L.append(",\n".join('  "%s"' % s.replace('"', "'") for s in inventory))
